@@ -175,7 +175,12 @@ static std::vector<MV> number_values() {
     for (int64_t x : {INT64_MIN, INT64_MIN + 1, int64_t(-4294967297LL), int64_t(-1), int64_t(0), int64_t(1), int64_t(9007199254740993LL), INT64_MAX}) v.push_back(MV::int64(x));
     for (uint64_t x : {uint64_t(0), uint64_t(1), uint64_t(9223372036854775807ULL), uint64_t(9223372036854775808ULL), UINT64_MAX}) v.push_back(MV::uint64(x));
     for (double d : {0.0, -0.0, 1.0, -1.0, 0.1, 1.5, 1e21, 1e-7, 123456789012345680.0, DBL_MAX, -DBL_MAX, DBL_MIN, 4.9406564584124654e-324, 2.2250738585072009e-308, 1e22, 1e23, 5e-324, 0.3, 2.0/3.0, 1e15, 1e16, 1e17, 123456.789, 100.0, 1e100})
-        v.push_back(MV::dbl(d));
+        { v.push_back(MV::dbl(d)); if (d > 0) v.push_back(MV::dbl(-d)); }
+    // doubles on which the shortest-digits fast path gives up (the fallback formats them) and every power of two
+    // (the one place where the rounding interval is asymmetric), both signs
+    for (double d : {7.2905070478438485e+34, 70299877727020456.0, 9.5e-305, 1.2345678901234567e+300, 8.41e21, 5.0e-310})
+        { v.push_back(MV::dbl(d)); v.push_back(MV::dbl(-d)); }
+    for (int e = -1074; e <= 1023; ++e) { double d = std::ldexp(1.0, e); v.push_back(MV::dbl(d)); v.push_back(MV::dbl(-d)); }
     int BI = int(jsoncons::semantic_tag::bigint), BD = int(jsoncons::semantic_tag::bigdec);
     v.push_back(MV::str("18446744073709551616", BI)); v.push_back(MV::str("-9223372036854775809", BI)); v.push_back(MV::str("123456789012345678901234567890123456789", BI));
     v.push_back(MV::str("1e400", BD)); v.push_back(MV::str("-1.5e-400", BD)); v.push_back(MV::str("1.5E+400", BD));
